@@ -145,5 +145,59 @@ def _impl(tier, seed, search):
         L.check('isunittwist-false', not bool(b.isunittwist(np.r_[S6[:3], v * (1 + abs(d))])), dict(S=S6), 'isunittwist accepts a non-unit twist')
     return L.result()
 
+def correspondence(tier, seed):
+    from .common import model_correspondence
+    return model_correspondence('smv.props.c07', tier, seed)
+
+def _corr(tier, seed):
+    """constructor argument handling of the pose classes vs Logic.ArgCheck.arghandler: items are naturals, odd = a member of the
+    group, even = a non-member (rotation part scaled by 2), 1 = the identity"""
+    import itertools
+    from spatialmath import SO2, SE2, SO3, SE3
+    import spatialmath.base as b
+    def item(cname, k):
+        th = 0.01 * k
+        if cname == 'SO2': M = b.rot2(th)
+        elif cname == 'SE2': M = b.trot2(th)
+        elif cname == 'SO3': M = b.rotz(th)
+        else: M = b.trotz(th)
+        if k == 1: M = np.eye(M.shape[0])
+        n = 2 if cname in ('SO2', 'SE2') else 3
+        if k % 2 == 0: M[:n, :n] *= 2.0
+        return M
+    def ident(a):
+        a = np.asarray(a, float)
+        if np.array_equal(a, np.eye(a.shape[0])): return 1
+        return int(round(math.atan2(a[1, 0], a[0, 0]) / 0.01))
+    CL = dict(SO2=SO2, SE2=SE2, SO3=SO3, SE3=SE3)
+    rows = []
+    maxlen = 3 if tier == 'quick' else 4
+    for cname, cls in CL.items():
+        cargs = ['nothing', 'unknown'] + [f'array:{k}' for k in (3, 4, 5, 6)]
+        for ln in range(0, maxlen + 1):
+            for combo in itertools.product((3, 4, 5, 6), repeat=ln):
+                cargs.append('arrays:' + (','.join(map(str, combo)) if combo else '-'))
+            for combo in itertools.product((3, 5, 7), repeat=ln):
+                if ln >= 1: cargs.append('objects:' + ','.join(map(str, combo)))
+                if ln >= 1: cargs.append('same:' + ','.join(map(str, combo)))
+        for check in (1, 0):
+            for ca in cargs:
+                t = ca.split(':')
+                ks = [int(x) for x in t[1].split(',')] if len(t) > 1 and t[1] not in ('-', '') else []
+                try:
+                    if t[0] == 'nothing': X = cls()
+                    elif t[0] == 'unknown': X = cls('abc', check=bool(check))
+                    elif t[0] == 'array': X = cls(item(cname, ks[0]), check=bool(check))
+                    elif t[0] == 'arrays': X = cls([item(cname, k) for k in ks], check=bool(check))
+                    elif t[0] == 'objects': X = cls([cls(item(cname, k)) for k in ks], check=bool(check))
+                    else: X = cls(cls([item(cname, k) for k in ks]) if len(ks) > 1 else cls(item(cname, ks[0])), check=bool(check))
+                    exp = '-' if len(X.data) == 0 else ','.join(str(ident(a)) for a in X.data)
+                except (ValueError, TypeError):
+                    exp = 'false'
+                except Exception as e:
+                    exp = 'exc:' + type(e).__name__
+                rows.append(dict(req=f'logic arghandler {check} {ca}', exp=exp, meta=dict(cls=cname)))
+    return rows
+
 if __name__ == '__main__':
-    main_entry(_impl)
+    main_entry(_impl, _corr)
